@@ -44,6 +44,9 @@ pub fn new_box(area: &str) -> Option<Box<dyn VerifBox>> {
         )),
         "c12" => Some(Box::new(crate::protocol::notification::verif_c12::ChanBox::new())),
         "c11" => Some(Box::new(crate::protocol::notification::verif_c11::NotifBox::new())),
+        "c15" => Some(Box::new(
+            crate::protocol::libp2p::kademlia::verif_c15::QueryBox::new(),
+        )),
         _ => None,
     }
 }
@@ -60,6 +63,7 @@ pub fn areas() -> Vec<&'static str> {
         "c12",
         "c13",
         "c14",
+        "c15",
         "c16",
         "c17",
         "c18",
